@@ -32,6 +32,8 @@ def seq_kind(ty):
             t = t.split(" ", 1)[1] if " " in t else t
     if t.startswith("std::vec::Vec<"):
         return "vec"
+    if t.startswith("std::collections::BinaryHeap<"):
+        return "heap"
     if t == "std::string::String":
         return "string"
     if t == "str":
@@ -606,6 +608,9 @@ class Interp:
                             st.store.bottom = True
                             return
                         st.env[key] = ("opt", nm, _payload_for(cur, nm), cur[3])
+                        if nm in ("Some", "Ok", "Continue") and len(cur) > 4:
+                            for l in cur[4]:
+                                st.store.add(l)         # facts the producer attached to the positive variant
                     else:
                         st.env[key] = ("opt", nm, None, fam)
             else:
@@ -616,6 +621,9 @@ class Interp:
                     if len(other) == 1:
                         pay = _payload_for(cur, other[0]) if cur is not None and cur[0] == "opt" else None
                         st.env[key] = ("opt", other[0], pay, fam)
+                        if other[0] in ("Some", "Ok", "Continue") and cur is not None and cur[0] == "opt" and len(cur) > 4:
+                            for l in cur[4]:
+                                st.store.add(l)
             return
 
     def _band_refine(self, st):
